@@ -92,7 +92,7 @@ def fault_free(ctx, reps, after_open=False):
                 r.blockwidth = int(p["blockwidth"])
             if wl == "r" and int(p["blockwidth"]) > 0:
                 r.audio_end = r.dataoffset[wl] + r.frames * int(p["blockwidth"])
-            FF[(r.name, wl)] = {"kinds": L.kvs(dm[-1]).get("kinds", ""), "sum": ls[-1].strip(), "open": op[0].strip()}
+            FF[(r.name, wl)] = {"kinds": L.kvs(dm[-1]).get("kinds", ""), "sum": next((x for x in reversed(ls) if x.startswith("len=")), ls[-1]).strip(), "open": op[0].strip()}
             if not after_open:
                 sc0 = dict(jobs)["%s|%s" % (r.name, wl)]
                 _, inf = L.judge(r, wl, sc0, ls, None)
